@@ -1,8 +1,8 @@
 #!/bin/bash
-# usage: tools/runall.sh [quick|thorough]   - every check once, one summary line each
+# usage: [PROPS="C02 C08"] tools/runall.sh [quick|thorough]   - every (or the named) check once, one summary line each
 T=${1:-quick}
 cd /verif
-for p in C01 C02 C03 C04 C05 C06 C07 C08 C09 C10 C11 C12 C13 C14 C15 C16 C17 C18 C20; do
+for p in ${PROPS:-C01 C02 C03 C04 C05 C06 C07 C08 C09 C10 C11 C12 C13 C14 C15 C16 C17 C18 C20}; do
   S=$(date +%s)
   timeout 7200 ./check $p --tier $T > /tmp/runall_$p.txt 2>&1; RC=$?
   E=$(( $(date +%s) - S ))
